@@ -126,6 +126,51 @@ def corpus_values(full, special):
 
 
 # ----------------------------------------------------------------------------- value plumbing
+BIG_BITS = 12000          # integers above this are never rendered in decimal (CPython refuses beyond 4300 digits)
+BIG_M1, BIG_M2 = 2 ** 61 - 1, 10 ** 9 + 7
+
+
+def show(x, depth=0):
+    """repr that never fails and never renders what is expensive or impossible to render"""
+    if depth > 6:
+        return "..."
+    if x is None or isinstance(x, bool):
+        return repr(x)
+    if isinstance(x, int):
+        if x.bit_length() < BIG_BITS:
+            return repr(x)
+        return "<int %s bits=%d mod(2^61-1)=%d>" % ("-" if x < 0 else "+", x.bit_length(), abs(x) % BIG_M1)
+    if isinstance(x, str):
+        return repr(x) if len(x) < 200 else "<str len=%d %r...>" % (len(x), x[:20])
+    if isinstance(x, (list, tuple)):
+        body = ", ".join(show(e, depth + 1) for e in list(x)[:12]) + (", ..." if len(x) > 12 else "")
+        return ("[%s]" if isinstance(x, list) else "(%s)") % body
+    if isinstance(x, dict):
+        return "{" + ", ".join("%s: %s" % (show(k, depth + 1), show(v, depth + 1)) for k, v in list(x.items())[:12]) + "}"
+    try:
+        return repr(x)
+    except Exception:      # noqa - objects whose __repr__ raises are part of the corpus
+        return "<%s object>" % type(x).__name__
+
+
+def fp(x, depth=0):
+    """fingerprint component that core may safely repr()"""
+    if isinstance(x, int) and not isinstance(x, bool) and x.bit_length() >= BIG_BITS:
+        return ("bigint", x < 0, x.bit_length(), abs(x) % BIG_M1)
+    if isinstance(x, str) and len(x) > 200:
+        return ("longstr", len(x), hash(x))
+    if isinstance(x, tuple):
+        return ("deep",) if depth > 20 else tuple(fp(e, depth + 1) for e in x)
+    return x
+
+
+class Evil:
+    """a host object that cannot be rendered"""
+    def __repr__(self):
+        raise RuntimeError("this object cannot be rendered")
+    __str__ = __repr__
+
+
 def kind(v):
     if v is None:
         return "null"
@@ -148,15 +193,25 @@ def kind(v):
     return "other"
 
 
+def depth_of(v, cap=200):
+    d = 0
+    while isinstance(v, (list, tuple)) and len(v) == 1 and d < 10 ** 6:
+        v = v[0]
+        d += 1
+    return d
+
+
 def enc(v):
     """JSON-able, lossless"""
+    if depth_of(v) > 100:
+        return {"t": "deep", "n": depth_of(v)}
     k = kind(v)
     if k == "null":
         return {"t": "null"}
     if k == "bool":
         return {"t": "bool", "v": v}
     if k == "int":
-        return {"t": "int", "v": str(v)}
+        return {"t": "int", "v": hex(v)}
     if k == "float":
         return {"t": "float", "v": v.hex()}
     if k == "str":
@@ -167,7 +222,7 @@ def enc(v):
         return {"t": "fset" if isinstance(v, frozenset) else "mset", "v": [enc(x) for x in sorted(v)]}
     if k == "dict":
         return {"t": "dict", "v": [[enc(a), enc(b)] for a, b in v.items()]}
-    return {"t": "other", "v": repr(v)}
+    return {"t": "evil" if isinstance(v, Evil) else "other", "v": type(v).__name__}
 
 
 def dec(j):
@@ -177,7 +232,11 @@ def dec(j):
     if t == "bool":
         return bool(j["v"])
     if t == "int":
-        return int(j["v"])
+        return int(j["v"], 0)
+    if t == "evil":
+        return Evil()
+    if t == "deep":
+        return deep_list(j["n"])
     if t == "float":
         return float.fromhex(j["v"])
     if t == "str":
@@ -195,13 +254,15 @@ def dec(j):
     raise ValueError(j)
 
 
-def canon(v):
+def canon(v, depth=0):
     """canonical, hashable, type-exact form of a result (True != 1 != 1.0; floats by bit pattern)"""
+    if depth > 40:
+        return ("deep",)
     k = kind(v)
     if k == "float":
         return ("float", "nan" if v != v else v.hex())
     if k in ("list", "tuple"):
-        return ("seq", tuple(canon(x) for x in v))
+        return ("seq", tuple(canon(x, depth + 1) for x in v))
     if k == "set":
         return ("set", tuple(sorted(canon(x) for x in v)))
     if k == "dict":
@@ -391,11 +452,27 @@ def gfloat64(f):
 _flt = [None]
 
 
+# integers that cannot be written as literals are written by the formula that built them
+HARD1 = (1 << 16700) + 977            # 5028 decimal digits: beyond CPython's int-to-str limit
+HARD1N = 3 - (1 << 16700)
+HARD2 = (1 << 340000) + 12345         # 102351 decimal digits
+HARD_FORMULA = {HARD1: "(Z.shiftl 1 16700 + 977)%Z", HARD1N: "(3 - Z.shiftl 1 16700)%Z", HARD2: "(Z.shiftl 1 340000 + 12345)%Z"}
+HARD_INTS = [HARD1, HARD1N, HARD2]
+
+
+def gz(n):
+    if abs(n).bit_length() < BIG_BITS:
+        return gal.z(n)
+    if n in HARD_FORMULA:
+        return HARD_FORMULA[n]
+    raise ValueError("integer with no Gallina spelling")
+
+
 def gdict(items):
     items = list(items)
     if not items:
         return "(@nil (Z * Z))"
-    return "[" + "; ".join("(%s, %s)" % (gal.z(a), gal.z(b)) for a, b in items) + "]"
+    return "[" + "; ".join("(%s, %s)" % (gz(a), gz(b)) for a, b in items) + "]"
 
 
 def gval(v):
@@ -405,7 +482,7 @@ def gval(v):
     if k == "bool":
         return "(VBool %s)" % gal.boolean(v)
     if k == "int":
-        return "(VInt %s)" % gal.z(v)
+        return "(VInt %s)" % gz(v)
     if k == "float":
         return "(VFloat %s)" % (_flt[0] or gfloat)(v)
     if k == "str":
@@ -427,7 +504,7 @@ def gcanon(c):
     if k == "bool":
         return "(VBool %s)" % gal.boolean(c[1])
     if k == "int":
-        return "(VInt %s)" % gal.z(c[1])
+        return "(VInt %s)" % gz(c[1])
     if k == "float":
         return "(VFloat %s)" % (_flt[0] or gfloat)(float("nan") if c[1] == "nan" else float.fromhex(c[1]))
     if k == "str":
@@ -446,6 +523,9 @@ def gobs(obs, unchecked=False):
         return "(OErr %s)" % obs[1] if not obs[1].startswith("Other:") else "OOtherExc"
     if unchecked and obs[1][0] == "float":
         return "OFloatUnchecked"
+    if obs[1][0] == "int" and abs(obs[1][1]).bit_length() >= BIG_BITS:
+        z = abs(obs[1][1])
+        return "(OBigInt %s %s %s %s)" % (gal.boolean(obs[1][1] < 0), gal.z(z.bit_length()), gal.z(z % BIG_M1), gal.z(z % BIG_M2))
     t = gcanon(obs[1])
     return "(OVal %s)" % t if t else "OOtherExc"
 
@@ -503,7 +583,7 @@ def case_env(case):
 
 def enc_case(case):
     d = {"cfg": cfg_of(case), "ops": case["ops"], "vals": [enc(v) for v in case["vals"]]}
-    for k in ("post", "route", "quota"):
+    for k in ("post", "route", "quota", "hard"):
         if case.get(k):
             d[k] = case[k]
     return d
@@ -511,7 +591,7 @@ def enc_case(case):
 
 def dec_case(j):
     d = {"cfg": j.get("cfg", "CDefault"), "ops": list(j["ops"]), "vals": [dec(v) for v in j["vals"]]}
-    for k in ("post", "route", "quota"):
+    for k in ("post", "route", "quota", "hard"):
         if j.get(k):
             d[k] = j[k]
     return d
@@ -626,7 +706,7 @@ class Laws:
         for sp, want in (("+", a + b), ("-", a - b), ("*", a * b)):
             o = self.E(sp, a, b)
             if o != ("val", ("int", want)):
-                return ("integer `%s` is not exact" % sp, {"a %s b" % sp: o}, {"exact": str(want)})
+                return ("integer `%s` is not exact" % sp, {"a %s b" % sp: o}, {"exact": show(want)})
         q, r = self.E("/", a, b), self.E("mod", a, b)
         if b == 0:
             if q != ("err", "EZeroDiv") or r != ("err", "EZeroDiv"):
@@ -744,6 +824,26 @@ class Laws:
             if e != ("val", ("bool", a == b)):
                 return ("dict equality", {"a = b": e}, a == b)
 
+    def opaque_operand(self, a, b):
+        """an operand that cannot be rendered / compared (host object, very deep nesting): ill-typed applications
+        still give exactly 'no matching function'"""
+        for x, y in ((a, b), (b, a)):
+            for sp in ARITH_ORDER:
+                if sp in ORDER and (x is None or y is None):
+                    continue
+                if sp == "+" and all(kind(v) in ("list", "tuple", "set", "dict") for v in (x, y)):
+                    continue
+                if sp == "*" and {kind(x), kind(y)} <= {"list", "tuple", "int"} and kind(x) != kind(y):
+                    continue
+                o = self.E(sp, x, y)
+                if o != NOMATCH:
+                    return ("`%s` with an operand that cannot be rendered did not give 'no matching function'" % sp,
+                            {"a %s b" % sp: o, "kinds": (kind(x), kind(y))}, "NoMatchingFunctionException")
+        for sp in ("+", "-"):
+            o = self.U(sp, a)
+            if o != NOMATCH:
+                return ("unary `%s` on an operand that cannot be rendered" % sp, {"%s a" % sp: o}, "NoMatchingFunctionException")
+
     def unary(self, a):
         k = kind(a)
         pos, neg, nt = self.U("+", a), self.U("-", a), self.U("not", a)
@@ -782,9 +882,9 @@ def check_laws(run, laws, names, vals, count=True):
 def report_law(run, name, vals, res, cfg="CDefault"):
     what, observed, required = res
     run.fail("violation", "law %s%s: %s" % (name, "" if cfg == "CDefault" else " [configuration %s]" % cfg, what),
-             {"law": name, "cfg": cfg, "vals": [enc(v) for v in vals], "values_readable": [repr(v)[:80] for v in vals],
+             {"law": name, "cfg": cfg, "vals": [enc(v) for v in vals], "values_readable": [show(v)[:80] for v in vals],
               "expression": "$a OP $b with a, b bound as variables (see 'observed' for the operators)",
-              "observed": repr(observed), "required": repr(required)})
+              "observed": show(observed), "required": show(required)})
 
 
 def load_corpus():
@@ -831,6 +931,23 @@ def oracle_cfg(run, deep, cfg):
                 report_law(run, n, (a,), r, cfg)
     for a, b in itertools.product(vals, vals):
         pair(a, b)
+    # operands that are expensive or impossible to render: the error rows must still be 'no matching function',
+    # the well-typed rows exact
+    for h in (HARD_INTS + [LONG_STR] if cfg != "CQuota" else []):
+        for n, r in check_laws(run, laws, Laws.SINGLE, (h,)):
+            if n not in seen:
+                seen.add(n)
+                report_law(run, n, (h,), r, cfg)
+        for p_ in [v for v in PARTNERS if v == v] + HARD_INTS + [LONG_STR]:
+            pair(h, p_)
+            pair(p_, h)
+    for h in (Evil(), deep_list()):
+        for p_ in PARTNERS + (HARD_INTS if cfg != "CQuota" else []):
+            run.count("law:opaque_operand")
+            r = laws.opaque_operand(h, p_)
+            if r and "opaque_operand" not in seen:
+                seen.add("opaque_operand")
+                report_law(run, "opaque_operand", (h, p_), r, cfg)
     scal = [v for v in corpus_values(True, special=True) if kind(v) not in ("list", "tuple", "set", "dict") and v == v]
     scal += random_scalars(run.rng, run.n(40, 400))
     ntri = 20000 if deep and run.quick else run.n(3000, 150000)
@@ -873,7 +990,7 @@ def gen_cases(run):
             pool = scal
             ops = [run.rng.choice(bsp), run.rng.choice(bsp)]
         cases.append({"ops": ops, "vals": [run.rng.choice(pool) for _ in range(3)]})
-    cases += route_cases(run) + quota_cases(run)
+    cases += route_cases(run) + quota_cases(run) + hard_cases(run)
     # the configurations whose options touch dispatch: the whole grid again, over a smaller corpus in the quick tier
     for cfg in CONFIGS[1:3]:
         cvals = SMALL if run.quick else corpus_values(False, special=True)
@@ -886,6 +1003,49 @@ def gen_cases(run):
             for a, b in itertools.product(cvals, cvals):
                 cases.append({"cfg": cfg, "ops": [sp], "vals": [a, b]})
     return cases
+
+
+# operands that are expensive or impossible to render or compare
+LONG_STR = "ab" * 100000
+
+
+def deep_list(n=3000):
+    x = []
+    for _ in range(n):
+        x = [x]
+    return x
+
+
+PARTNERS = [None, True, 0, 1, -7, 2 ** 63 + 1, 2.5, float("nan"), float("inf"), "ab", [1, 2], (1, 2), frozenset([1]), {1: 10}]
+
+
+def hard_slow(case):
+    """arithmetic the model cannot do inside Coq in reasonable time: * / mod between the 102351-digit integer and
+    another integer (the oracle checks those rows on the implementation alone)"""
+    vals, ops = case["vals"], case["ops"]
+    if ops[0] not in ("*", "/", "mod") or not all(kind(v) == "int" for v in vals):
+        return False
+    big = [v for v in vals if abs(v).bit_length() >= BIG_BITS]
+    if any(abs(v).bit_length() > 100000 for v in big):
+        return True
+    return len(big) == 2 and vals[0] == vals[1]      # two different 5028-digit integers are multiplied / divided once each way
+
+
+def hard_cases(run):
+    """the dispatch grid (error rows and well-typed rows) with integers far beyond what can be printed"""
+    out = []
+    for cfg in ("CDefault", "CLegacy") if run.quick else CONFIGS[:3]:
+        hs = HARD_INTS if cfg == "CDefault" else [HARD1]
+        for h in hs:
+            for sp in [s_ for _, s_ in UNARY]:
+                out.append({"cfg": cfg, "hard": True, "ops": [sp], "vals": [h]})
+            for _, sp in BINARY:
+                for p_ in (PARTNERS + HARD_INTS if cfg == "CDefault" or not run.quick else [None, True, 1, 2.5, "ab", (1, 2)]):
+                    for vals in ([h, p_], [p_, h]):
+                        c = {"cfg": cfg, "hard": True, "ops": [sp], "vals": vals}
+                        if not hard_slow(c):
+                            out.append(c)
+    return out
 
 
 LITS = [None, True, False, 0, 1, -1, 2, -7, 2 ** 63 + 1, -(10 ** 40), 0.0, -0.0, 2.5, -2.5, float(2 ** 63),
@@ -1027,7 +1187,7 @@ def triple_mode(im, case):
 def correspondence(run):
     fn_correspondence(run)
     lawsof = {}
-    terms, meta, terms64, idx64 = [], [], [], []
+    terms, meta, terms64, idx64, tidx, hterms, hidx = [], [], [], [], [], [], []
     for i, case in enumerate(gen_cases(run)):
         im = impl_of(case)
         if case.get("quota"):
@@ -1045,7 +1205,7 @@ def correspondence(run):
         plain, traced, ran = observe(im, case)
         ks = tuple(kind(v) for v in case["vals"])
         run.case((cfg_of(case), case.get("route"), tuple(case.get("post", [])), case.get("quota"),
-                  tuple(case["ops"]), tuple(canon(v) for v in case["vals"]), ks),
+                  tuple(case["ops"]), fp(tuple(canon(v) for v in case["vals"])), ks),
                  nontrivial=bool(ran) or any(k in ("null", "bool") for k in ks))
         run.count("op:" + " ".join(case["ops"]))
         run.count("cfg:" + cfg_of(case))
@@ -1055,31 +1215,41 @@ def correspondence(run):
         run.count("kinds:" + ",".join(ks))
         run.count("outcome:" + (plain[1] if plain[0] == "err" else "value:" + plain[1][0]))
         if i % 1201 == 0:
-            run.sample({"expr": case_text(case), "vals": [repr(v)[:60] for v in case["vals"]],
-                        "observed": repr(plain), "payloads_ran": ran})
+            run.sample({"expr": case_text(case), "vals": [show(v)[:60] for v in case["vals"]],
+                        "observed": show(plain), "payloads_ran": ran})
         if plain != traced:
-            run.fail("mismatch", "instrumented and untouched context disagree", {"case": enc_case(case), "plain": repr(plain), "traced": repr(traced)})
+            run.fail("mismatch", "instrumented and untouched context disagree", {"case": enc_case(case), "plain": show(plain), "traced": show(traced)})
             continue
         try:
-            terms.append(case_term(case, plain, ran, mode == "unchecked"))
+            term = case_term(case, plain, ran, mode == "unchecked")
         except ValueError:
             run.cov["skipped"] += 1
             continue
+        if case.get("hard"):
+            run.count("route:hard operands (unprintable integers)")
+            hterms.append(term)
+            hidx.append(len(meta))
+        else:
+            terms.append(term)
+            tidx.append(len(meta))
         meta.append((case, plain, ran))
         if (has_float(case, plain) or (len(case["vals"]) == 3 and any(family(v) == "num" for v in case["vals"]))) \
-                and (not run.quick or len(meta) % 2 == 0):
+                and (not run.quick or len(meta) % 2 == 0) and not case.get("hard"):
             terms64.append(case_term64(case, plain, ran, mode == "unchecked"))
             idx64.append(len(meta) - 1)
-    bad = run.coq_mismatches(HEADER, "pcase", "case_ok registry_of", terms, shard=400)
+    bad = [tidx[j] for j in run.coq_mismatches(HEADER, "pcase", "case_ok registry_of", terms, shard=400)]
+    # (the few expensive ones - products, quotients and residues of huge integers - are spread over the shards)
+    perm = sorted(range(len(hterms)), key=lambda i: (i * 7919) % max(1, len(hterms)))
+    bad += [hidx[perm[j]] for j in run.coq_mismatches(HEADER, "pcase", "case_ok registry_of", [hterms[i] for i in perm], shard=12)]
     # the same float cases on the Flocq binary64 instance (the one of C15_order_consistent_num_binary64)
     bad64 = [idx64[j] for j in run.coq_mismatches(HEADER64, "bcase", "bcase_ok registry_of", terms64, shard=400)]
     run.count("cases also run on the Flocq binary64 instance", len(terms64))
     for i in bad64:
         if i not in bad:
             case, plain, ran = meta[i]
-            run.fail("mismatch", "%s on (%s) [%s]: the Flocq binary64 instance of the model differs from the implementation (%r) "
+            run.fail("mismatch", "%s on (%s) [%s]: the Flocq binary64 instance of the model differs from the implementation (%s) "
                      "while the PrimFloat instance agrees" % (case_text(case), ",".join(kind(v) for v in case["vals"]),
-                                                            cfg_of(case), plain), {"case": enc_case(case), "instance": "B64"})
+                                                            cfg_of(case), show(plain)), {"case": enc_case(case), "instance": "B64"})
     reported = set()
     for i in bad[:200]:
         case, plain, ran = meta[i]
@@ -1105,16 +1275,16 @@ def correspondence(run):
         if sres:
             report_special(run, slaw, case, sres, sform)
             continue
-        data = {"case": enc_case(case), "expression": case_text(case), "values_readable": [repr(v)[:80] for v in vals],
-                "implementation": repr(plain), "payloads_ran": ran, "model": model_says(run, case)}
+        data = {"case": enc_case(case), "expression": case_text(case), "values_readable": [show(v)[:80] for v in vals],
+                "implementation": show(plain), "payloads_ran": ran, "model": model_says(run, case)}
         if fails:
             n, (what, observed, required) = fails[0]
-            data.update({"law": n, "cfg": cfg, "vals": [enc(v) for v in lvals], "observed": repr(observed), "required": repr(required)})
+            data.update({"law": n, "cfg": cfg, "vals": [enc(v) for v in lvals], "observed": show(observed), "required": show(required)})
             run.fail("violation", "%s on %s [%s]: implementation and model differ, and law %s fails: %s"
                      % (case_text(case), ",".join(kind(v) for v in vals), cfg, n, what), data)
         else:
-            run.fail("mismatch", "%s on (%s) [%s]: implementation %r / payloads %s differ from the model"
-                     % (case_text(case), ",".join(kind(v) for v in vals), cfg, plain, ran), data)
+            run.fail("mismatch", "%s on (%s) [%s]: implementation %s / payloads %s differ from the model"
+                     % (case_text(case), ",".join(kind(v) for v in vals), cfg, show(plain), ran), data)
 
 
 # ----------------------------------------------------------------------------- delivery routes and quota engines
@@ -1178,7 +1348,7 @@ def special_law(case):
 def report_special(run, law, case, res, form=None):
     what, observed, required = res
     data = {"law": law, "case": enc_case(case), "expression": texts_of(case, form) if form else case_text(case),
-            "values_readable": [repr(v)[:80] for v in case["vals"]], "observed": repr(observed), "required": repr(required)}
+            "values_readable": [show(v)[:80] for v in case["vals"]], "observed": show(observed), "required": show(required)}
     if form:
         data["form"] = form
     run.fail("violation", "law %s [%s%s]: %s" % (law, cfg_of(case), " quota %d" % case["quota"] if case.get("quota") else "", what), data)
@@ -1270,7 +1440,7 @@ def fn_correspondence(run):
     terms, meta = [], []
     for f, args in fn_cases(run):
         got, raw = fn_observe(im, f, args)
-        run.case(("fn", f, tuple(args)), nontrivial=True)
+        run.case(("fn", f, fp(tuple(args))), nontrivial=True)
         run.count("fn:" + f)
         terms.append("(%s, %s, %s)" % (f, gal.zlist(args), gal.opt(got, gal.z)))
         meta.append((f, args, raw))
@@ -1280,7 +1450,7 @@ def fn_correspondence(run):
         kind_ = "violation" if law else "mismatch"
         run.fail(kind_, "%s with %s: implementation %r differs from the integer-function model%s"
                  % (FNS[f][0], args, raw, "; " + law if law else ""),
-                 {"fn": f, "args": [str(a) for a in args], "implementation": repr(raw), "law": law})
+                 {"fn": f, "args": [hex(a) for a in args], "implementation": show(raw), "law": law})
 
 
 def fn_law(im, f, args):
@@ -1346,14 +1516,14 @@ def fn_oracle(run):
         if law and f not in seen:
             seen.add(f)
             run.fail("violation", "integer function law: %s" % law,
-                     {"fn": f, "args": [str(a) for a in args], "expression": FNS[f][0], "observed": repr(fn_observe(im, f, args)[1]), "required": law})
+                     {"fn": f, "args": [hex(a) for a in args], "expression": FNS[f][0], "observed": show(fn_observe(im, f, args)[1]), "required": law})
 
 
 # ----------------------------------------------------------------------------- replay
 def replay(run, data):
     d = data["data"]
     if "fn" in d:
-        args = [int(a) for a in d["args"]]
+        args = [int(a, 0) for a in d["args"]]
         got, _ = fn_observe(impl("CDefault"), d["fn"], args)
         if fn_law(impl("CDefault"), d["fn"], args):
             return False
